@@ -164,10 +164,10 @@ def handle (j : Json) : P Json := do
             | _ => throw "build: leaf expected"
         | "comb" => do pure (HOp.comb (← decOp (← str p[1]!)) (← nat p[2]!) (← nat p[3]!))
         | t => throw s!"bad instruction {t}")
-      let (h, outs) := runHistory 64 #[] [] instrs
+      let (h, outs) := runHistory 4096 #[] [] instrs
       let encOut (o : Except Exc Nat) : Json := encOutcome (fun (n : Nat) => Json.num n) o
       let dens := outs.map (fun o => match o with
-        | .ok i => encOutcome encCondLit (Heap.den h 64 i)
+        | .ok i => encOutcome encCondLit (Heap.den h 4096 i)
         | .error e => encExc e)
       pure (Json.mkObj [("outs", .arr (outs.map encOut).toArray), ("dens", .arr dens.toArray)])
   | "parse_cond" => do
